@@ -491,7 +491,7 @@ pub fn strategy() -> BoxedStrategy<Case> {
 // crash-prone parts run in child processes (rio-probe): FFI null matrix, long raw-text elements
 #[derive(Serialize, Deserialize, Clone, Debug, PartialEq)]
 pub struct ProbeCase {
-    /// "ffi-null" | "script" | "nested"
+    /// "ffi-null" | "script" | "nested" | "loginit" | "selector"
     pub kind: String,
     /// ffi-null: index of the combination ; script: variant of the script content
     pub index: u32,
@@ -579,7 +579,7 @@ pub fn run(ctx: &Ctx) -> Report {
          then the four analyses in their stand-alone and project variants, Request::from_str, Addr parsing; probes (child processes): every null / non-null argument pattern of the extern C functions (exhaustive), long raw-text elements (1 B .. 8 MiB, 6 script variants) in the optimised and in the unoptimised build under a 2 MiB stack; \
          oracle = every call returns normally (no unwind, child survives, no watchdog); non-trivial = the input deserialised, >=1 rule matched and the action was applied, or a probe ran; distinct by case hash / by construction",
     );
-    rep.assume("logger initialisation functions are excluded (redirectionio_log_init_with_callback takes a Rust reference; repeated initialisation is documented to fail); termination is a bounded observation (120 s watchdog per probe, reported as infrastructure trouble, never as a violation)");
+    rep.assume("the NULL matrix leaves out the data argument of redirectionio_log_init_with_callback (a Rust reference); the logger initialisers themselves are probed, twice in every order, in child processes; termination is a bounded observation (120 s watchdog per probe, reported as infrastructure trouble, never as a violation)");
     rep.add(run_part(ctx, "pipelines", ctx.cases(100_000, 3_000_000), strategy, check, &[]));
     if rep.has_violation() {
         return rep;
@@ -612,8 +612,20 @@ pub fn run(ctx: &Ctx) -> Report {
             }
         }
     }
+    // css selectors nested 1 .. 5000 levels deep (the selector parser of the scraper crate recurses once per level)
+    for variant in 0..2u32 {
+        for len in [1u64, 30, 40, 200, 1500, 5000] {
+            for profile in ["release", "unoptimised"] {
+                probes.push(ProbeCase { kind: "selector".into(), index: variant, len, profile: profile.into(), stack_kib: 2048 });
+            }
+        }
+    }
+    // the logger initialisers called twice, in the four orders
+    for variant in 0..4u32 {
+        probes.push(ProbeCase { kind: "loginit".into(), index: variant, len: 0, profile: "release".into(), stack_kib: 2048 });
+    }
     let n = probes.len() as u64;
-    let r = run_enum(ctx, "probes", n, true, &format!("{n} child-process probes: extern C null matrix (exhaustive), long raw-text elements x 6 variants x sizes {:?} x {{optimised, unoptimised}}, routers of {:?} nested-prefix rules (path, host) x {{optimised, unoptimised}}", sizes, nested), |i| Some(probes[i as usize].clone()), check_probe, &[KnownSig { name: D12, pred: is_d12 }, KnownSig { name: D34, pred: is_d34 }]);
+    let r = run_enum(ctx, "probes", n, true, &format!("{n} child-process probes: the two logger initialisers twice in their four orders, css selectors nested up to 5000 levels x {{optimised, unoptimised}}, extern C null matrix (exhaustive), long raw-text elements x 6 variants x sizes {:?} x {{optimised, unoptimised}}, routers of {:?} nested-prefix rules (path, host) x {{optimised, unoptimised}}", sizes, nested), |i| Some(probes[i as usize].clone()), check_probe, &[KnownSig { name: D12, pred: is_d12 }, KnownSig { name: D34, pred: is_d34 }]);
     rep.add(r);
     rep
 }
